@@ -3,7 +3,7 @@
    encoding) is decided on the REAL output of generated cases against the generator's ground
    truth; the theorems are the laws of the resolver that make every encoding transparent. *)
 From VJ Require Import Model.Str Model.Json Model.Ast Model.State Model.Util Model.Types
-  Lemmas.NodeInd Lemmas.TypesProofs.
+  Lemmas.NodeInd Lemmas.TypesProofs Lemmas.EncProofs.
 
 (* every alias declared anywhere in the module - before or after the call, nested in a
    function, exported - is in the registry before the transformation starts *)
@@ -62,3 +62,20 @@ Theorem C16_unresolved_reported : forall E f sym c ps s,
   exists d, snd (rte E (S f) (tref sym c ps) s) = set_diags (diags s ++ [d]) s.
 Proof. exact rte_unknown_reported. Qed.
 Print Assumptions C16_unresolved_reported.
+
+(* FULL STATEMENT of the resolution step on a grammar of encodings (Lemmas/EncProofs.v): however the
+   prop map is written - inline literals wrapped in parentheses / optional wrappers, alias chains of
+   any length, intersections and unions of any width, Partial / Required, nested to any depth -
+   resolve_type_elements returns exactly the members the encoding denotes ([den]: the members of the
+   literals in order, an alias transparent, Partial / Required flipping only the optional flag) and
+   leaves the state alone (no diagnostic).  Pick / Omit / `extends` / indexed accesses are outside
+   the grammar: their laws are above, their composition is decided on real outputs. *)
+Theorem C16_resolution_is_denotation : forall E s e fuel,
+  (pdepth e <= fuel)%nat -> pwf E s e -> rte E fuel (enc_p E e) s = (den e, s).
+Proof. intros E s e. exact (rte_exact E s e). Qed.
+Print Assumptions C16_resolution_is_denotation.
+
+Theorem C16_encoding_hypotheses_satisfiable :
+  pwf E_dummy st0 penc_example /\ (pdepth penc_example <= type_fuel)%nat.
+Proof. exact penc_example_ok. Qed.
+Print Assumptions C16_encoding_hypotheses_satisfiable.
